@@ -158,6 +158,10 @@ def main(argv=None):
     for b in spec.get("bounded", []):
         res = b(tier=tier, seed=seed, run_native=run_native)
         bounded_results.append(res)
+        if res.get("error"):
+            # the layer produced no verdict at all (its process crashed or printed no result): that is a defect of the checker
+            # run, not a property verdict — never silently "nothing found"
+            checker_errors.append(f"bounded layer gave no result: {res.get('what', '?')[:60]}: {str(res['error'])[-200:]}")
         for v in res.get("violations", []):
             bounded_violations.append(v)
 
@@ -334,12 +338,14 @@ def main(argv=None):
         print(ln)
     print(f"{pid}: {evidence['coverage']['discharged']}/{len(real)} obligations discharged over {len(reports)} functions "
           f"({t_gen:.1f}s generation, {t_solve:.1f}s solving); bounded parts: {len(bounded_results)}")
+    if violations:
+        for e in checker_errors:
+            print("CHECKER-ERROR (besides the violation):", e)
+        return 1
     if checker_errors:
         for e in checker_errors:
             print("CHECKER-ERROR:", e)
         return 3
-    if violations:
-        return 1
     if undecided:
         for u in undecided:
             print("UNDECIDED:", u)
